@@ -178,6 +178,32 @@ func (g *Generator) generateTimestampFieldMarshal(gf *protogen.GeneratedFile, fi
 	jsonName := field.Desc.JSONName()
 	format := fieldInfo.Format
 
+	if field.Desc.IsList() {
+		// repeated timestamps: every element in the configured format
+		var elem string
+		//exhaustive:ignore -- RFC3339/UNSPECIFIED are the protojson default
+		switch format {
+		case http.TimestampFormat_TIMESTAMP_FORMAT_UNIX_SECONDS:
+			elem = "ts.AsTime().Unix()"
+		case http.TimestampFormat_TIMESTAMP_FORMAT_UNIX_MILLIS:
+			elem = "ts.AsTime().UnixMilli()"
+		case http.TimestampFormat_TIMESTAMP_FORMAT_DATE:
+			elem = `ts.AsTime().Format("2006-01-02")`
+		default:
+			return
+		}
+		gf.P("// Convert every element of ", field.Desc.Name(), " to ", format.String(), " format")
+		gf.P("if len(x.", goName, ") > 0 {")
+		gf.P("converted := make([]any, len(x.", goName, "))")
+		gf.P("for i, ts := range x.", goName, " {")
+		gf.P("converted[i] = ", elem)
+		gf.P("}")
+		gf.P(`raw["`, jsonName, `"], _ = json.Marshal(converted)`)
+		gf.P("}")
+		gf.P()
+		return
+	}
+
 	gf.P("// Convert ", field.Desc.Name(), " to ", format.String(), " format")
 	gf.P("if x.", goName, " != nil {")
 	gf.P("t := x.", goName, ".AsTime()")
@@ -240,6 +266,11 @@ func (g *Generator) generateTimestampFieldUnmarshal(gf *protogen.GeneratedFile, 
 	jsonName := field.Desc.JSONName()
 	format := fieldInfo.Format
 
+	if field.Desc.IsList() {
+		g.generateRepeatedTimestampFieldUnmarshal(gf, jsonName, format)
+		return
+	}
+
 	gf.P("// Convert ", jsonName, " from ", format.String(), " to RFC 3339 for protojson")
 	gf.P(`if v, ok := raw["`, jsonName, `"]; ok {`)
 
@@ -266,6 +297,54 @@ func (g *Generator) generateTimestampFieldUnmarshal(gf *protogen.GeneratedFile, 
 		gf.P("}")
 	}
 
+	gf.P("}")
+	gf.P()
+}
+
+// generateRepeatedTimestampFieldUnmarshal converts every element of a repeated timestamp field from
+// the configured format to RFC 3339 for protojson; an element that does not parse leaves the value
+// untouched, so protojson reports it.
+func (g *Generator) generateRepeatedTimestampFieldUnmarshal(
+	gf *protogen.GeneratedFile,
+	jsonName string,
+	format http.TimestampFormat,
+) {
+	gf.P("// Convert every element of ", jsonName, " from ", format.String(), " to RFC 3339 for protojson")
+	gf.P(`if v, ok := raw["`, jsonName, `"]; ok {`)
+	//exhaustive:ignore -- RFC3339/UNSPECIFIED are the protojson default
+	switch format {
+	case http.TimestampFormat_TIMESTAMP_FORMAT_UNIX_SECONDS, http.TimestampFormat_TIMESTAMP_FORMAT_UNIX_MILLIS:
+		conv := "time.Unix(n, 0)"
+		if format == http.TimestampFormat_TIMESTAMP_FORMAT_UNIX_MILLIS {
+			conv = "time.UnixMilli(n)"
+		}
+		gf.P("var nums []int64")
+		gf.P("if err := json.Unmarshal(v, &nums); err == nil {")
+		gf.P("converted := make([]string, len(nums))")
+		gf.P("for i, n := range nums {")
+		gf.P("converted[i] = ", conv, ".UTC().Format(time.RFC3339Nano)")
+		gf.P("}")
+		gf.P(`raw["`, jsonName, `"], _ = json.Marshal(converted)`)
+		gf.P("}")
+	case http.TimestampFormat_TIMESTAMP_FORMAT_DATE:
+		gf.P("var dates []string")
+		gf.P("if err := json.Unmarshal(v, &dates); err == nil {")
+		gf.P("converted := make([]string, 0, len(dates))")
+		gf.P("valid := true")
+		gf.P("for _, s := range dates {")
+		gf.P(`t, parseErr := time.Parse("2006-01-02", s)`)
+		gf.P("if parseErr != nil {")
+		gf.P("valid = false")
+		gf.P("break")
+		gf.P("}")
+		gf.P("converted = append(converted, t.Format(time.RFC3339Nano))")
+		gf.P("}")
+		gf.P("if valid {")
+		gf.P(`raw["`, jsonName, `"], _ = json.Marshal(converted)`)
+		gf.P("}")
+		gf.P("}")
+	default:
+	}
 	gf.P("}")
 	gf.P()
 }
